@@ -20,15 +20,22 @@ TIE
                measured and returned.  Table sizes are reduced (`num_int_pts`, `num_x_pts` are parameters of
                the solver) so that a solve costs ~0.1 s.
 
-ORACLES (numeric checks on the REAL GenEOS_Solver; tests, not proofs) — quick tier: a smoke set of fixed
-problems at reduced table size; thorough tier: random sweep
-  ig_vs_gen  C07  GenEOS_Solver vs IGEOS_Solver on ideal-gas data, away from the smeared cells
-  rh         C02  Rankine-Hugoniot / contact conditions from the returned fields next to each wave
-  eos        C03  e = sie(p, rho) of the declared closure at returned points away from the smeared cells
-  mirror     C09  two public calls related by the mirror symmetry
-  boost      C09  two public calls related by a Galilean boost
-Tolerances follow the table resolution (relative error of linear interpolation in tables of `num_int_pts`
-rows, calibrated on the unchanged tree with a 10x margin)."""
+ORACLES (numeric checks on the REAL public GenEOS_Solver; tests, not proofs).  Quick tier: a fixed smoke set of 2-3
+problems with 601-row tables (0.3 s per solve; the set does not depend on VERIF_SEED and is evaluated once per check);
+thorough tier, replay, or when the obligation's proof / tie is broken: random sweep over both closures and all four
+patterns for at least 30 s.  Every case is solved once to learn the wave speeds; the window is then drawn tightly around
+the waves so that the solver's grid resolves them, and the samples keep 2.5 cells away from every wave position (the
+general solver smears each discontinuity over one cell).
+  ig_vs_gen     C07  GenEOS_Solver vs IGEOS_Solver on ideal-gas data (unequal gammas): pattern, Vregs, fields
+  rh            C02  Rankine-Hugoniot across every shock, [p] = [u] = 0 and speed = u at the contact, from the returned
+                     fields next to each wave and the solver's Vregs
+  eos           C03  e = sie(p, rho) of the declared closure (ideal gas: each side's gamma; JWL form) at returned points
+  mirror/boost  C09  two public calls related by the symmetry (window transported with the problem)
+  conservation  C04  piecewise Gauss quadrature of the returned fields vs the conservation formula (o_c04.integrals),
+                     allowing for the grid term 2 h x (sum of jumps); o_c04.gen_ig/gen_jwl remain the thorough sweeps
+Tolerances follow the table resolution, (301 / num_int_pts)^2 times a constant calibrated on the unchanged tree with a
+10x margin (`calibrate`; worst errors are recorded next to each constant and returned in `worst` as a fraction of the
+allowed error)."""
 import contextlib
 import io
 import math
@@ -570,7 +577,7 @@ ig_vs_gen = make_geneos(gen_oracle_case, _ivg_check, 'geneos.ig_vs_gen', [('ig',
 
 # ---- C02: Rankine-Hugoniot / contact from the returned fields -------------------------------------
 
-TOL_RH = 1.5e-2      # x res_scale; worst on the unchanged tree 1.3e-3 (flux across a shock from interpolated star values)
+TOL_RH = 2e-2        # x res_scale; worst on the unchanged tree 2e-3 (flux across a shock from interpolated star values)
 
 
 def _rh_check(c):
@@ -665,9 +672,9 @@ eos = make_geneos(gen_oracle_case, _eos_check, 'geneos.eos', [('jwl', 'RCR'), ('
 
 # ---- C09: mirror and boost ------------------------------------------------------------------------
 
-TOL_MIRROR = 2.5e-3  # x res_scale; worst on the unchanged tree 2.1e-4 (same tables; the grids differ: window rule
+TOL_MIRROR = 5e-3    # x res_scale; worst on the unchanged tree 3e-4 (same tables; the grids differ: window rule
                      # `1.1 * Xregs` and the node at 0 the driver appends are not reflected with the problem)
-TOL_BOOST = 2.5e-3   # x res_scale; worst on the unchanged tree 1.8e-4 (same reason)
+TOL_BOOST = 1e-2     # x res_scale; worst on the unchanged tree 9.4e-4 (same reason; 700 cases)
 
 
 def _compare_sym(kind, fa, fb, sign_u, shift, site, tol):
